@@ -255,6 +255,57 @@ def run(tier):
         callers = sorted({k for k, f in F.fns.items() for bb, t, ck, fr in f.calls() if ck == S_ + name})
         rep.check(callers == [S_ + owner], "flow-level-callers", name, "%s is called from %s: the flow nesting bound is tied to one call per bracket in %s" % (
             name, [short(c) for c in callers], owner), detail=[short(c) for c in callers])
+    # R4': the one flow construct that opens a mapping without a bracket - the single pair `[ k: v ]`, whose FlowMappingStart is inserted
+    # when a ':' resolves a pending simple key - cannot nest in itself: inside a flow collection a simple key becomes possible again only
+    # after '[', '{', ',' (each either counted by the level or ending the pair).  Every place that re-allows simple keys is therefore
+    # either one of those fetchers, a block-context-only function, or sits on the `flow_level == 0` side of a test.  A line break or a
+    # ':' that re-allowed keys in flow context would let `[ a:\n b:\n c: ...` nest one mapping per line with the level at 1.
+    UNCONDITIONAL_OK = {
+        "fetch_stream_start": "runs once, before any bracket: the level is 0",
+        "fetch_flow_collection_start": "'[' / '{': counted by increase_flow_level",
+        "fetch_flow_entry": "',' ends the pair it follows",
+        "fetch_block_entry": "rejects flow context before it gets there",
+        "fetch_block_scalar": "block scalars do not occur inside flow collections (the indicator is refused there)",
+        "scan_plain_scalar": "only after the scalar swallowed a line break: the scalar then spans lines and cannot be a simple key; what follows it must be an indicator",
+        "allow_simple_key": "the setter itself",
+        "new": "constructor",
+    }
+    n_allow = 0
+    for k, f in sorted(F.fns.items()):
+        if f.d.get("impl_adt") != SCANNER:
+            continue
+        sites = [(bb, t["sp"]) for bb, t, ck, fr in f.calls() if ck == S_ + "allow_simple_key"]
+        for w in cfg.field_writes(f, SCANNER, "simple_key_allowed"):
+            if w["kind"] == "assign" and w["stmt"]["rv"]["k"] == "use":
+                c = op_const(w["stmt"]["rv"]["a"])
+                if c is None or const_value(c) is not False:
+                    sites.append((w["bb"], w["stmt"]["sp"]))
+            elif w["kind"] != "assign":
+                sites.append((w["bb"], None))
+        for bb, sp in sites:
+            n_allow += 1
+            nm = f.name
+            if nm in UNCONDITIONAL_OK:
+                rep.ok("flow-pair-cannot-nest", "%s@reviewed" % short(k), UNCONDITIONAL_OK[nm])
+                continue
+            ok = False
+            for d in f.dominators().get(bb, ()):
+                tt = f.blocks[d]["term"]
+                if tt["k"] != "switch":
+                    continue
+                e = cfg.expr_operand(f, tt["discr"], 6)
+                m, other = cfg.switch_edge_blocks(f, d)
+                zero = None
+                if e[0] == "bin" and cfg.expr_fields(e[2]) == ["flow_level"] and e[3] == ("const", 0):
+                    zero = other if e[1] == "Eq" else m.get(0) if e[1] in ("Gt", "Ne") else None
+                elif cfg.expr_fields(e) == ["flow_level"]:
+                    zero = m.get(0)
+                if zero is not None and (bb == zero or cfg.dominated_by_edge(f, bb, d, zero)):
+                    ok = True
+            rep.check(ok, "flow-pair-cannot-nest", short(k), "%s re-allows simple keys on a path where the flow level may be positive: inside a flow collection a key "
+                      "could then follow a ':' without a bracket or comma in between, single pairs nest without the flow level counting them and the nesting "
+                      "limit is bypassed" % f.name, site=site(f, sp) if sp else f.span)
+    rep.floor("places that re-allow simple keys", n_allow, 8)
     # R5: the heap stacks that take over from the call stack grow with the input: the cycle-free core pushes one entry per open collection
     # (parser states, marks, indents, simple keys, loader document/key stacks).  A fixed-capacity container there (ArrayDeque, ArrayVec,
     # an array indexed by depth) turns "nesting deeper than N" into a panic or a silent overwrite.  Fixed-capacity containers are allowed
